@@ -1008,7 +1008,7 @@ def _literal_value(node: ast.AST) -> bool:
         args = [literal_value(arg) for arg in node.args]
         return getattr(node_value, node.func.attr)(*args)
 
-    if isinstance(node, ast.Call):
+    if isinstance(node, ast.Call) and not node.keywords:
         if isinstance(node.func, ast.Name) and node.func.id in constants.BUILTIN_FUNCTIONS:
             args = [literal_value(arg) for arg in node.args]
             return getattr(builtins, node.func.id)(*args)
